@@ -397,3 +397,183 @@ Proof.
   destruct (fl_iter pre rest offs s) as [|o e s'|]; try contradiction. cbn [after]. rewrite Hl in H. exact H.
 Qed.
 Lemma fline0_inv o : fl_inv o fline0. Proof. unfold fl_inv, pf_end. cbn. lia. Qed.
+
+(* ---- the name-addr automaton ---------------------------------------------------------------------------------------- *)
+(* every saved offset lies at or before the current position; the white space directly before the
+   current position does not reach back to the first byte of the parameters (nor, while a bare
+   name-or-URI token is being read, exist at all): the back-trimming before a ',' relies on it;
+   L is a lower bound for the start of the value (for the callers that extend a field up to it) *)
+Definition fb_inv (L : N) (pre : list byte) (o : N) (s : pfrom) : Prop :=
+  pf_end (fb_name s) <= o /\ pf_end (fb_uri s) <= o /\ pf_end (fb_tag s) <= o /\ pf_end (fb_params s) <= o /\
+  pf_end (fb_v s) <= o /\ fb_soffs s <= o /\ fb_pstart s <= o /\ fb_pend s <= o /\ fb_vstart s <= o /\ fb_vend s <= o /\
+  (fb_state s = FbNameOrURI -> span is_ws pre = 0%nat) /\
+  (po (fb_params s) <> 0 -> nnat (span is_ws pre) + po (fb_params s) < o) /\
+  L <= o /\ (fb_state s <> FbInit -> L <= po (fb_v s)).
+
+Lemma span_ws_rev_app (a : list byte) : forall pre, (span is_ws (rev a ++ pre) <= length a + span is_ws pre)%nat.
+Proof.
+  induction a as [|c a IH]; intros pre; cbn [rev app length]; [lia|].
+  rewrite <- app_assoc. cbn [app]. specialize (IH (c :: pre)).
+  assert (Hc : (span is_ws (c :: pre) <= S (span is_ws pre))%nat) by (cbn [span]; destruct (is_ws c); lia).
+  lia.
+Qed.
+Lemma span_ws_zpre k pre rest : (k <= length rest)%nat -> (span is_ws (zpre k pre rest) <= k + span is_ws pre)%nat.
+Proof.
+  intros Hk. unfold zpre. pose proof (span_ws_rev_app (firstn k rest) pre) as H. rewrite firstn_length_le in H by exact Hk. exact H.
+Qed.
+
+Definition fb_bnd (L : N) (o : N) (s : pfrom) : Prop :=
+  pf_end (fb_name s) <= o /\ pf_end (fb_uri s) <= o /\ pf_end (fb_tag s) <= o /\ pf_end (fb_params s) <= o /\
+  pf_end (fb_v s) <= o /\ fb_soffs s <= o /\ fb_pstart s <= o /\ fb_pend s <= o /\ fb_vstart s <= o /\ fb_vend s <= o /\
+  L <= o /\ (fb_state s <> FbInit -> L <= po (fb_v s)).
+Lemma fb_inv_bnd L pre o s : fb_inv L pre o s -> fb_bnd L o s.
+Proof. unfold fb_inv, fb_bnd. tauto. Qed.
+Lemma fb_bnd_mono L o o' s : o <= o' -> fb_bnd L o s -> fb_bnd L o' s.
+Proof. unfold fb_bnd. intros H (H1 & H2 & H3 & H4 & H5 & H6 & H7 & H8 & H9 & H10 & H11 & H12). repeat split; try lia; auto. Qed.
+
+Definition fb_P (L : N) (pre rest : list byte) (i : N) (s : pfrom) : Prop := i = nnat (length pre) /\ fb_inv L pre i s.
+Definition fb_Q (L : N) (pre rest : list byte) (i o : N) (e : err) (s : pfrom) : Prop :=
+  o <= i + nnat (length rest) /\ fb_bnd L (i + nnat (length rest)) s /\
+  (e = EMore -> exists k, (k <= length rest)%nat /\ o = i + nnat k /\ fb_inv L (zpre k pre rest) o s) /\
+  (e = EOk \/ e = EMoreValues -> i <= o).
+Definition fb_step_res (L : N) (pre rest : list byte) (i : N) (r : ires pfrom) : Prop :=
+  match r with
+  | Next k s' => (0 < k <= length rest)%nat /\ fb_P L (zpre k pre rest) (zrest k rest) (i + nnat k) s'
+  | Ret o e s' => fb_Q L pre rest i o e s'
+  | IPanic => False
+  end.
+
+Lemma zslice_some pre rest i a b : a <= b -> b <= i + nnat (length rest) -> exists l, zslice pre rest i a b = Some l.
+Proof.
+  intros H1 H2. unfold zslice, nnat in *. replace ((a <=? b) && (b <=? i + N.of_nat (length rest))) with true by lia. eexists. reflexivity.
+Qed.
+
+(* setFromParamVal succeeds; it only moves the tag and clears the saved parameter offsets *)
+Lemma setpv_ok L pre rest i0 o s : o <= i0 + nnat (length rest) -> fb_bnd L o s ->
+  exists s1, setFromParamVal pre rest i0 s = Some s1 /\ fb_bnd L o s1 /\ fb_state s1 = fb_state s /\
+             fb_params s1 = fb_params s /\ fb_v s1 = fb_v s /\ fb_soffs s1 = fb_soffs s.
+Proof.
+  intros Ho (H1 & H2 & H3 & H4 & H5 & H6 & H7 & H8 & H9 & H10 & H11 & H12). unfold setFromParamVal.
+  destruct s as [nm ur tg st lr he ty q ex pa v pe eo sta so ps pd vs ve]; unfold pf_end in *; cbn -[N.add N.sub nnat zslice set_q] in *.
+  destruct ((ps <? pd) && (vs <? ve)) eqn:E1.
+  - destruct (zslice_some pre rest i0 ps pd) as [name ->]; [lia|lia|].
+    destruct (zslice_some pre rest i0 vs ve) as [val ->]; [lia|lia|].
+    unfold pf_set. replace (ve <? vs) with false by lia.
+    destruct (eqb_nocase name str_tag); [eexists; split; [reflexivity|]; unfold fb_bnd, pf_end; cbn; repeat split; auto; lia|].
+    destruct (eqb_nocase name str_expires); [destruct (pUInt64Val val); eexists; split; [reflexivity|]; unfold fb_bnd, pf_end; cbn; repeat split; auto; lia|].
+    destruct (eqb_nocase name str_q).
+    { eexists. split; [reflexivity|]. unfold set_q. cbn -[N.add N.sub nnat pUInt64Val span].
+      repeat match goal with
+             | |- context [if ?b then _ else _] => destruct b
+             | |- context [let '(_, _) := ?x in _] => destruct x
+             | |- context [match ?e with EOk => _ | _ => _ end] => destruct e
+             end; unfold fb_bnd, pf_end; cbn; repeat split; auto; lia. }
+    destruct (eqb_nocase name str_lr); eexists; (split; [reflexivity|]); unfold fb_bnd, pf_end; cbn; repeat split; auto; lia.
+  - destruct ((ps <? pd) && (vs =? ve)) eqn:E2.
+    + destruct (zslice_some pre rest i0 ps pd) as [name ->]; [lia|lia|].
+      destruct (eqb_nocase name str_lr); eexists; (split; [reflexivity|]); unfold fb_bnd, pf_end; cbn; repeat split; auto; lia.
+    + eexists. split; [reflexivity|]. unfold fb_bnd, pf_end; cbn; repeat split; auto; lia.
+Qed.
+
+Lemma pf_set_some s i : s <= i -> pf_set s i = Some (mkpf s (i - s)).
+Proof. intros H. unfold pf_set. replace (i <? s) with false by lia. reflexivity. Qed.
+Lemma pf_extend_some f e : po f <= e -> pf_extend f e = Some (mkpf (po f) (e - po f)).
+Proof. intros H. unfold pf_extend. replace (e <? po f) with false by lia. reflexivity. Qed.
+
+Lemma fb_bnd_pend L o s j : fb_bnd L o s -> j <= o -> fb_bnd L o (s <| fb_pend := j |>).
+Proof. destruct s. unfold fb_bnd, pf_end. cbn. intros (H1&H2&H3&H4&H5&H6&H7&H8&H9&H10&H11&H12) Hj. repeat split; auto. Qed.
+Lemma fb_bnd_vend L o s j : fb_bnd L o s -> j <= o -> fb_bnd L o (s <| fb_vend := j |>).
+Proof. destruct s. unfold fb_bnd, pf_end. cbn. intros (H1&H2&H3&H4&H5&H6&H7&H8&H9&H10&H11&H12) Hj. repeat split; auto. Qed.
+Lemma fb_bnd_vsve L o s j : fb_bnd L o s -> j <= o -> fb_bnd L o (s <| fb_vstart := j |> <| fb_vend := j |>).
+Proof. destruct s. unfold fb_bnd, pf_end. cbn. intros (H1&H2&H3&H4&H5&H6&H7&H8&H9&H10&H11&H12) Hj. repeat split; auto. Qed.
+
+Lemma fb_close_ok L pre rest i0 j s : fb_bnd L i0 s -> j <= i0 -> po (fb_v s) <= j ->
+  (po (fb_params s) <> 0 -> po (fb_params s) <= j) -> (fb_state s = FbNameOrURI -> fb_soffs s <= j) ->
+  match fb_close pre rest i0 j s with
+  | None => False
+  | Some None => True
+  | Some (Some s1) => fb_bnd L i0 s1 /\ fb_state s <> FbInit /\ po (fb_v s1) = po (fb_v s)
+  end.
+Proof.
+  intros Hb Hj Hv Hp Hs. pose proof Hb as (H1 & H2 & H3 & H4 & H5 & H6 & H7 & H8 & H9 & H10 & H11 & H12).
+  unfold fb_close.
+  assert (Hext : forall (s' : pfrom) (force : bool), fb_bnd L i0 s' -> fb_params s' = fb_params s -> fb_v s' = fb_v s ->
+            fb_state s' <> FbInit ->
+            match (match (if force || negb (po (fb_params s') =? 0) then pf_extend (fb_params s') j else Some (fb_params s')),
+                         pf_extend (fb_v s') j with
+                   | Some p, Some v => Some (Some (s' <| fb_params := p |> <| fb_v := v |>))
+                   | _, _ => None end) with
+            | None => False | Some None => True
+            | Some (Some s1) => fb_bnd L i0 s1 /\ po (fb_v s1) = po (fb_v s) end).
+  { intros s' force Hb' Ep Ev Hst. rewrite Ep, Ev. rewrite (pf_extend_some (fb_v s) j Hv).
+    pose proof Hb' as (B1 & B2 & B3 & B4 & B5 & B6 & B7 & B8 & B9 & B10 & B11 & B12).
+    destruct (force || negb (po (fb_params s) =? 0)) eqn:Ef.
+    - rewrite pf_extend_some by (destruct (po (fb_params s) =? 0) eqn:E0; [lia|apply Hp; lia]).
+      destruct s'; unfold fb_bnd, pf_end in *; cbn -[N.add N.sub] in *. subst. cbn -[N.add N.sub] in *. repeat split; auto; try lia.
+    - destruct s'; unfold fb_bnd, pf_end in *; cbn -[N.add N.sub] in *. subst. cbn -[N.add N.sub] in *. repeat split; auto; try lia. }
+  assert (Hset : forall s', fb_bnd L i0 s' -> fb_params s' = fb_params s -> fb_v s' = fb_v s -> fb_state s' = fb_state s ->
+            forall force, fb_state s <> FbInit ->
+            match (match setFromParamVal pre rest i0 s' with
+                   | Some s2 => (match (if force || negb (po (fb_params s2) =? 0) then pf_extend (fb_params s2) j else Some (fb_params s2)),
+                                        pf_extend (fb_v s2) j with
+                                 | Some p, Some v => Some (Some (s2 <| fb_params := p |> <| fb_v := v |>))
+                                 | _, _ => None end)
+                   | None => None end) with
+            | None => False | Some None => True
+            | Some (Some s1) => fb_bnd L i0 s1 /\ po (fb_v s1) = po (fb_v s) end).
+  { intros s' Hb' Ep Ev Est force Hni.
+    destruct (setpv_ok L pre rest i0 i0 s' ltac:(lia) Hb') as (s2 & -> & Hb2 & E1 & E2 & E3 & E4).
+    apply Hext; [exact Hb2|congruence|congruence|congruence]. }
+  destruct (fb_state s) eqn:Est; try exact I.
+  - (* NameOrURI *)
+    rewrite (pf_set_some (fb_soffs s) j) by (apply Hs; reflexivity). rewrite (pf_extend_some (fb_v s) j Hv).
+    split; [|split; [discriminate|destruct s; reflexivity]].
+    destruct s; unfold fb_bnd, pf_end in *; cbn -[N.add N.sub] in *. repeat split; auto; try lia. intros _. apply H12. subst. discriminate.
+  - split; [exact Hb|split; [discriminate|reflexivity]].
+  - split; [exact Hb|split; [discriminate|reflexivity]].
+  - pose proof (Hext s false Hb eq_refl eq_refl ltac:(rewrite Est; discriminate)) as X.
+    destruct (match (if false || _ then _ else _), _ with Some p, Some v => _ | _, _ => None end) as [[s1|]|]; auto. split; [apply X|split; [discriminate|apply X]].
+  - (* PossibleParamName *)
+    pose proof (Hset (s <| fb_pend := j |>) (fb_bnd_pend L i0 s j Hb Hj)
+                  ltac:(destruct s; reflexivity) ltac:(destruct s; reflexivity) ltac:(destruct s; exact Est) false ltac:(discriminate)) as X.
+    destruct (setFromParamVal _ _ _ _); [|exact X].
+    destruct (match (if false || _ then _ else _), _ with Some p, Some v => _ | _, _ => None end) as [[s1|]|]; auto. split; [apply X|split; [discriminate|apply X]].
+  - pose proof (Hset s Hb eq_refl eq_refl Est false ltac:(discriminate)) as X.
+    destruct (setFromParamVal _ _ _ _); [|exact X].
+    destruct (match (if false || _ then _ else _), _ with Some p, Some v => _ | _, _ => None end) as [[s1|]|]; auto. split; [apply X|split; [discriminate|apply X]].
+  - pose proof (Hext s false Hb eq_refl eq_refl ltac:(rewrite Est; discriminate)) as X.
+    destruct (match (if false || _ then _ else _), _ with Some p, Some v => _ | _, _ => None end) as [[s1|]|]; auto. split; [apply X|split; [discriminate|apply X]].
+  - pose proof (Hset (s <| fb_pend := j |>) (fb_bnd_pend L i0 s j Hb Hj)
+                  ltac:(destruct s; reflexivity) ltac:(destruct s; reflexivity) ltac:(destruct s; exact Est) false ltac:(discriminate)) as X.
+    destruct (setFromParamVal _ _ _ _); [|exact X].
+    destruct (match (if false || _ then _ else _), _ with Some p, Some v => _ | _, _ => None end) as [[s1|]|]; auto. split; [apply X|split; [discriminate|apply X]].
+  - pose proof (Hset s Hb eq_refl eq_refl Est false ltac:(discriminate)) as X.
+    destruct (setFromParamVal _ _ _ _); [|exact X].
+    destruct (match (if false || _ then _ else _), _ with Some p, Some v => _ | _, _ => None end) as [[s1|]|]; auto. split; [apply X|split; [discriminate|apply X]].
+  - pose proof (Hset (s <| fb_vstart := j |> <| fb_vend := j |>) (fb_bnd_vsve L i0 s j Hb Hj)
+                  ltac:(destruct s; reflexivity) ltac:(destruct s; reflexivity) ltac:(destruct s; exact Est) true ltac:(discriminate)) as X.
+    destruct (setFromParamVal _ _ _ _); [|exact X].
+    destruct (match (if true || _ then _ else _), _ with Some p, Some v => _ | _, _ => None end) as [[s1|]|]; auto. split; [apply X|split; [discriminate|apply X]].
+  - pose proof (Hset (s <| fb_vend := j |>) (fb_bnd_vend L i0 s j Hb Hj)
+                  ltac:(destruct s; reflexivity) ltac:(destruct s; reflexivity) ltac:(destruct s; exact Est) true ltac:(discriminate)) as X.
+    destruct (setFromParamVal _ _ _ _); [|exact X].
+    destruct (match (if true || _ then _ else _), _ with Some p, Some v => _ | _, _ => None end) as [[s1|]|]; auto. split; [apply X|split; [discriminate|apply X]].
+  - pose proof (Hset s Hb eq_refl eq_refl Est true ltac:(discriminate)) as X.
+    destruct (setFromParamVal _ _ _ _); [|exact X].
+    destruct (match (if true || _ then _ else _), _ with Some p, Some v => _ | _, _ => None end) as [[s1|]|]; auto. split; [apply X|split; [discriminate|apply X]].
+  - pose proof (Hset (s <| fb_vstart := j |> <| fb_vend := j |>) (fb_bnd_vsve L i0 s j Hb Hj)
+                  ltac:(destruct s; reflexivity) ltac:(destruct s; reflexivity) ltac:(destruct s; exact Est) true ltac:(discriminate)) as X.
+    destruct (setFromParamVal _ _ _ _); [|exact X].
+    destruct (match (if true || _ then _ else _), _ with Some p, Some v => _ | _, _ => None end) as [[s1|]|]; auto. split; [apply X|split; [discriminate|apply X]].
+  - pose proof (Hset (s <| fb_vend := j |>) (fb_bnd_vend L i0 s j Hb Hj)
+                  ltac:(destruct s; reflexivity) ltac:(destruct s; reflexivity) ltac:(destruct s; exact Est) true ltac:(discriminate)) as X.
+    destruct (setFromParamVal _ _ _ _); [|exact X].
+    destruct (match (if true || _ then _ else _), _ with Some p, Some v => _ | _, _ => None end) as [[s1|]|]; auto. split; [apply X|split; [discriminate|apply X]].
+  - pose proof (Hset s Hb eq_refl eq_refl Est true ltac:(discriminate)) as X.
+    destruct (setFromParamVal _ _ _ _); [|exact X].
+    destruct (match (if true || _ then _ else _), _ with Some p, Some v => _ | _, _ => None end) as [[s1|]|]; auto. split; [apply X|split; [discriminate|apply X]].
+  - (* Star *)
+    split; [|split; [discriminate|destruct s; reflexivity]].
+    destruct s; unfold fb_bnd, pf_end in *; cbn -[N.add N.sub] in *. repeat split; auto; try lia.
+    intros _. apply H12. subst. discriminate.
+Qed.
